@@ -6,7 +6,10 @@ ALLOC(w), SIZ(w) and the value with the model's run."""
 from genlib import *
 
 LEAN_MODULES = ["MpirProofs.Props.C04_allocsafe"]
-THEOREMS = ["Mpir.AllocSafe.mpz_add_alloc_safe", "Mpir.AllocSafe.mpz_sub_alloc_safe"]
+THEOREMS = ["Mpir.AllocSafe." + t for t in (
+    "mpz_add_alloc_safe", "mpz_sub_alloc_safe", "mpz_add_ui_alloc_safe", "mpz_sub_ui_alloc_safe", "mpz_set_alloc_safe",
+    "mpz_neg_alloc_safe", "mpz_abs_alloc_safe", "mpz_set_ui_alloc_safe", "mpz_set_si_alloc_safe", "mpz_mul_2exp_alloc_safe",
+    "write_eq_storeAll", "storeAll_bad", "MPZ_REALLOC_grown")]
 TRUSTED = ["hand-written size-aware models lean/Mpir/Model/AllocSafe.lean + AllocSafeMpz.lean (memory = variable id -> block with its allocated length and a "
            "generation counter; kernels = list functions applied to checked index ranges, all reads before the stores), tied by exact comparison of "
            "ALLOC(w), SIZ(w), value for every alias mode and destination allocation, and by source pins"]
@@ -17,7 +20,9 @@ RULE = ("allocsafe: every mirrored function in every alias mode, destination all
         "sources with exact and with slack allocation, operands at limb boundaries (all-ones, B^k, B^k - 2^m) so that the result-one-limb-longer and the "
         "result-shrinks cases occur")
 
-PINS = [("mpz/realloc.c", None), ("gmp-impl.h", "MPZ_REALLOC"), ("mpz/aors.h", None)]
+PINS = [("mpz/realloc.c", None), ("gmp-impl.h", "MPZ_REALLOC"), ("mpz/aors.h", None), ("mpz/aors_ui.h", None), ("mpz/set.c", None),
+        ("mpz/neg.c", None), ("mpz/abs.c", None), ("mpz/set_ui.c", None), ("mpz/set_si.c", None), ("mpz/mul_2exp.c", None),
+        ("mpz/tdiv_q_2exp.c", None), ("mpz/com.c", None)]
 
 def nl(x): return (abs(x).bit_length() + 63) // 64
 
@@ -59,11 +64,43 @@ def gen3(rng, name, need):
     nd = need(u, v)
     return "%s %x %s %s %s" % (name, m, wobj(rng, nd), obj(rng, u, nd), obj(rng, v, nd))
 
+def gen2(rng, name, need):
+    u = special(rng) if rng.random() < 0.8 else rand_int(rng, 6)
+    nd = need(u)
+    return "%s %x %s %s" % (name, rng.randrange(2), wobj(rng, nd), obj(rng, u, nd))
+
+def genui(rng, name, need, ks):
+    u = special(rng) if rng.random() < 0.8 else rand_int(rng, 6)
+    k = ks(rng, u)
+    nd = need(u, k)
+    return "%s %x %s %s %x" % (name, rng.randrange(2), wobj(rng, nd), obj(rng, u, nd), k)
+
+def limb_k(rng, u):
+    lo = abs(u) & M
+    return rng.choice([0, 1, 2, M, 1 << 63, lo, (lo + 1) & M, (B - lo) & M, (lo - 1) & M, rng.getrandbits(64)])
+
+def shift_k(rng, u):
+    n = nl(u)
+    return rng.choice([0, 1, 63, 64, 65, 127, 128, 64 * n - 1, 64 * n, 64 * n + 1, 64 * max(n - 1, 0), 64 * max(n - 1, 0) + 1,
+                       rng.randrange(0, 64 * (n + 2)), max(abs(u).bit_length() - 1, 0), abs(u).bit_length(), rng.randrange(0, 64)])
+
 def gen_ops(rng, tier, ctx=None):
     n = 150 if tier == "quick" else 3000
     for _ in range(n):
         yield gen3(rng, "as_add", lambda u, v: max(nl(u), nl(v)) + 1)
         yield gen3(rng, "as_sub", lambda u, v: max(nl(u), nl(v)) + 1)
+        yield genui(rng, "as_add_ui", lambda u, k: nl(u) + 1, limb_k)
+        yield genui(rng, "as_sub_ui", lambda u, k: nl(u) + 1, limb_k)
+        yield gen2(rng, "as_set", nl)
+        yield gen2(rng, "as_neg", nl)
+        yield gen2(rng, "as_abs", nl)
+        yield gen2(rng, "as_com", lambda u: nl(u) + 1)
+        yield genui(rng, "as_mul_2exp", lambda u, k: nl(u) + k // 64 + 1, shift_k)
+        yield genui(rng, "as_tdiv_q_2exp", lambda u, k: max(nl(u) - k // 64, 1), shift_k)
+        v = rng.choice([0, 1, M, 1 << 63, rng.getrandbits(64)])
+        yield "as_set_ui %s %x" % (wobj(rng, 1), v)
+        sv = rng.choice([0, 1, -1, (1 << 63) - 1, -(1 << 63), rng.getrandbits(63), -rng.getrandbits(63)])
+        yield "as_set_si %s %s" % (wobj(rng, 1), hx(sv))
 
 def nontrivial(line):
     return line if line.startswith("as_") else None
